@@ -8,55 +8,60 @@ namespace Bufr.C07
 open Bufr.Spec
 
 /-- `s` has recorded as many values as labels, and its items extend those of `s0` -/
-def G (V : St → List Val) (s0 s : St) : Prop :=
-  (V s).length = s.descs.length ∧ (∃ ext, items V s = items V s0 ++ ext) ∧ s.vals.length = s0.vals.length
+def G (V : St → List Val) (X : St → Prop) (s0 s : St) : Prop :=
+  (V s).length = s.descs.length ∧ (∃ ext, items V s = items V s0 ++ ext) ∧ s.vals.length = s0.vals.length ∧
+    (X s0 → X s)
 
-theorem G.refl (V : St → List Val) (s0 : St) (h : (V s0).length = s0.descs.length) : G V s0 s0 :=
-  ⟨h, ⟨[], by simp⟩, rfl⟩
+theorem G.refl (V : St → List Val) (X : St → Prop) (s0 : St) (h : (V s0).length = s0.descs.length) : G V X s0 s0 :=
+  ⟨h, ⟨[], by simp⟩, rfl, fun x => x⟩
 
-theorem G.congr {V : St → List Val} {s0 s s' : St} (h : G V s0 s) (hd : s'.descs = s.descs) (hv : V s' = V s)
-    (hl : s'.vals.length = s.vals.length) : G V s0 s' :=
-  ⟨by rw [hd, hv]; exact h.1, by rw [items_congr V s s' hd hv]; exact h.2.1, by rw [hl]; exact h.2.2⟩
+theorem G.congr {V : St → List Val} {X : St → Prop} {s0 s s' : St} (h : G V X s0 s) (hd : s'.descs = s.descs)
+    (hv : V s' = V s) (hl : s'.vals.length = s.vals.length) (hx : X s → X s') : G V X s0 s' :=
+  ⟨by rw [hd, hv]; exact h.1, by rw [items_congr V s s' hd hv]; exact h.2.1, by rw [hl]; exact h.2.2.1,
+    fun x => hx (h.2.2.2 x)⟩
 
-theorem G.push {V : St → List Val} {s0 s s' : St} (h : G V s0 s) (dd : DDesc) (v : Val)
-    (hd : s'.descs = dd :: s.descs) (hv : V s' = V s ++ [v]) (hl : s'.vals.length = s.vals.length) : G V s0 s' := by
-  obtain ⟨h1, ⟨ext, h2⟩, h3⟩ := h
-  refine ⟨by rw [hd, hv]; simp [h1], ⟨ext ++ [(dd, v)], ?_⟩, by rw [hl]; exact h3⟩
+theorem G.push {V : St → List Val} {X : St → Prop} {s0 s s' : St} (h : G V X s0 s) (dd : DDesc) (v : Val)
+    (hd : s'.descs = dd :: s.descs) (hv : V s' = V s ++ [v]) (hl : s'.vals.length = s.vals.length)
+    (hx : X s → X s') : G V X s0 s' := by
+  obtain ⟨h1, ⟨ext, h2⟩, h3, h4⟩ := h
+  refine ⟨by rw [hd, hv]; simp [h1], ⟨ext ++ [(dd, v)], ?_⟩, by rw [hl]; exact h3, fun x => hx (h4 x)⟩
   rw [items_snoc V s s' dd v h1 hd hv, h2, List.append_assoc]
 
-theorem G.trans {V : St → List Val} {s0 s1 s2 : St} (h1 : G V s0 s1) (h2 : G V s1 s2) : G V s0 s2 := by
-  obtain ⟨_, ⟨e1, h1⟩, v1⟩ := h1
-  obtain ⟨l2, ⟨e2, h2⟩, v2⟩ := h2
-  exact ⟨l2, ⟨e1 ++ e2, by rw [h2, h1, List.append_assoc]⟩, by rw [v2, v1]⟩
+theorem G.trans {V : St → List Val} {X : St → Prop} {s0 s1 s2 : St} (h1 : G V X s0 s1) (h2 : G V X s1 s2) :
+    G V X s0 s2 := by
+  obtain ⟨_, ⟨e1, h1⟩, v1, x1⟩ := h1
+  obtain ⟨l2, ⟨e2, h2⟩, v2, x2⟩ := h2
+  exact ⟨l2, ⟨e1 ++ e2, by rw [h2, h1, List.append_assoc]⟩, by rw [v2, v1], fun x => x2 (x1 x)⟩
 
 section steps
-variable {P : Prims} {V : St → List Val} (hR : Rec P V) (s0 : St)
+variable {P : Prims} {V : St → List Val} {X : St → Prop} (hR : Rec P V X) (s0 : St)
 include hR
 
 theorem growG_same {f : St → CM St}
-    (h : ∀ s s', f s = .ok s' → ∃ dd, Same s s' dd ∧ (∃ v, V s' = V s ++ [v]) ∧ s'.vals.length = s.vals.length) :
-    Pres (G V s0) f := by
+    (h : ∀ s s', f s = .ok s' → ∃ dd, Same s s' dd ∧ (∃ v, V s' = V s ++ [v]) ∧ s'.vals.length = s.vals.length ∧
+      (X s → X s')) :
+    Pres (G V X s0) f := by
   intro s s' e hi
-  obtain ⟨dd, hs, ⟨v, hv⟩, hl⟩ := h s s' e
-  exact hi.push dd v hs.1 hv hl
+  obtain ⟨dd, hs, ⟨v, hv⟩, hl, hx⟩ := h s s' e
+  exact hi.push dd v hs.1 hv hl hx
 
-theorem growG_setRegs (f : St → Regs → Regs) : Pres (G V s0) (fun s => .ok (s.setRegs (f s))) := by
+theorem growG_setRegs (f : St → Regs → Regs) : Pres (G V X s0) (fun s => .ok (s.setRegs (f s))) := by
   intro s s' e hi
   cases e
-  exact hi.congr rfl (hR.setRegs _ _) rfl
+  exact hi.congr rfl (hR.setRegs _ _) rfl (hR.setRegsX _ _)
 
-theorem growG_numeric (dd : DDesc) (n sc r : Int) : Pres (G V s0) (P.numeric dd n sc r) :=
-  growG_same hR s0 (fun s s' h => ⟨dd, hR.quiet.numeric _ _ _ _ _ _ h, hR.numeric _ _ _ _ _ _ h, hR.numericL _ _ _ _ _ _ h⟩)
-theorem growG_string (dd : DDesc) (n : Nat) : Pres (G V s0) (P.string dd n) :=
-  growG_same hR s0 (fun s s' h => ⟨dd, hR.quiet.string _ _ _ _ h, hR.string _ _ _ _ h, hR.stringL _ _ _ _ h⟩)
-theorem growG_codeflag (dd : DDesc) (n : Nat) : Pres (G V s0) (P.codeflag dd n) :=
-  growG_same hR s0 (fun s s' h => ⟨dd, hR.quiet.codeflag _ _ _ _ h, hR.codeflag _ _ _ _ h, hR.codeflagL _ _ _ _ h⟩)
-theorem growG_constant (dd : DDesc) (c : Int) : Pres (G V s0) (P.constant dd c) :=
-  growG_same hR s0 (fun s s' h => ⟨dd, hR.quiet.constant _ _ _ _ h, hR.constant _ _ _ _ h, hR.constantL _ _ _ _ h⟩)
+theorem growG_numeric (dd : DDesc) (n sc r : Int) : Pres (G V X s0) (P.numeric dd n sc r) :=
+  growG_same hR s0 (fun s s' h => ⟨dd, hR.quiet.numeric _ _ _ _ _ _ h, hR.numeric _ _ _ _ _ _ h, hR.numericL _ _ _ _ _ _ h, hR.numericX _ _ _ _ _ _ h⟩)
+theorem growG_string (dd : DDesc) (n : Nat) : Pres (G V X s0) (P.string dd n) :=
+  growG_same hR s0 (fun s s' h => ⟨dd, hR.quiet.string _ _ _ _ h, hR.string _ _ _ _ h, hR.stringL _ _ _ _ h, hR.stringX _ _ _ _ h⟩)
+theorem growG_codeflag (dd : DDesc) (n : Nat) : Pres (G V X s0) (P.codeflag dd n) :=
+  growG_same hR s0 (fun s s' h => ⟨dd, hR.quiet.codeflag _ _ _ _ h, hR.codeflag _ _ _ _ h, hR.codeflagL _ _ _ _ h, hR.codeflagX _ _ _ _ h⟩)
+theorem growG_constant (dd : DDesc) (c : Int) : Pres (G V X s0) (P.constant dd c) :=
+  growG_same hR s0 (fun s s' h => ⟨dd, hR.quiet.constant _ _ _ _ h, hR.constant _ _ _ _ h, hR.constantL _ _ _ _ h, hR.constantX _ _ _ _ h⟩)
 
 /-- `stQa` only touches registers and links -/
 theorem stQa_shape (e : Elem) (s s2 : St) (h : stQa e s = .ok s2) :
-    s2.descs = s.descs ∧ V s2 = V s ∧ s2.vals = s.vals := by
+    s2.descs = s.descs ∧ V s2 = V s ∧ s2.vals = s.vals ∧ (X s → X s2) := by
   unfold stQa at h
   by_cases hx : xOf e.id = 33
   · rw [if_pos hx] at h
@@ -65,7 +70,7 @@ theorem stQa_shape (e : Elem) (s s2 : St) (h : stQa e s = .ok s2) :
       simp only [hq, reduceCtorEq, if_false] at h
       simp only [hq, reduceCtorEq, if_false, pure, Except.pure] at h
       injection h with h; subst h
-      exact ⟨rfl, rfl, rfl⟩
+      exact ⟨rfl, rfl, rfl, fun x => x⟩
     | waiting =>
       simp only [hq, St.setRegs, if_true, bind, Except.bind, nextBitmapped] at h
       cases hb : s.regs.bmIter with
@@ -80,7 +85,10 @@ theorem stQa_shape (e : Elem) (s s2 : St) (h : stQa e s = .ok s2) :
           have : V (addLink ((s.setRegs fun r => { r with qa := .processing }).setRegs
               fun r => { r with bmIter := some rest }) owner) = V s := by
             rw [hR.addLink, hR.setRegs, hR.setRegs]
-          exact ⟨rfl, this, rfl⟩
+          have hx : X s → X (addLink ((s.setRegs fun r => { r with qa := .processing }).setRegs
+              fun r => { r with bmIter := some rest }) owner) :=
+            fun x => hR.addLinkX _ _ (hR.setRegsX _ _ (hR.setRegsX _ _ x))
+          exact ⟨rfl, this, rfl, hx⟩
     | processing =>
       simp only [hq, reduceCtorEq, if_false] at h
       simp only [hq, if_true, St.setRegs, bind, Except.bind, nextBitmapped] at h
@@ -96,20 +104,23 @@ theorem stQa_shape (e : Elem) (s s2 : St) (h : stQa e s = .ok s2) :
           have : V (addLink ((s.setRegs fun r => { r with qa := .processing }).setRegs
               fun r => { r with bmIter := some rest }) owner) = V s := by
             rw [hR.addLink, hR.setRegs, hR.setRegs]
-          exact ⟨rfl, this, rfl⟩
+          have hx : X s → X (addLink ((s.setRegs fun r => { r with qa := .processing }).setRegs
+              fun r => { r with bmIter := some rest }) owner) :=
+            fun x => hR.addLinkX _ _ (hR.setRegsX _ _ (hR.setRegsX _ _ x))
+          exact ⟨rfl, this, rfl, hx⟩
   · rw [if_neg hx] at h
     simp only [pure, Except.pure] at h
     injection h with h; subst h
     split
-    · exact ⟨rfl, hR.setRegs _ _, rfl⟩
-    · exact ⟨rfl, rfl, rfl⟩
+    · exact ⟨rfl, hR.setRegs _ _, rfl, hR.setRegsX _ _⟩
+    · exact ⟨rfl, rfl, rfl, fun x => x⟩
 
-theorem growG_stQa (e : Elem) : Pres (G V s0) (stQa e) := by
+theorem growG_stQa (e : Elem) : Pres (G V X s0) (stQa e) := by
   intro s s2 h hi
-  obtain ⟨a, b, c⟩ := stQa_shape hR e s s2 h
-  exact hi.congr a b (by rw [c])
+  obtain ⟨a, b, c, d⟩ := stQa_shape hR e s s2 h
+  exact hi.congr a b (by rw [c]) d
 
-theorem growG_stValue (dd : DDesc) (e : Elem) : Pres (G V s0) (stValue P dd e) := by
+theorem growG_stValue (dd : DDesc) (e : Elem) : Pres (G V X s0) (stValue P dd e) := by
   intro s s' h hi
   unfold stValue at h
   split at h
@@ -119,14 +130,14 @@ theorem growG_stValue (dd : DDesc) (e : Elem) : Pres (G V s0) (stValue P dd e) :
     · exact growG_numeric hR s0 _ _ _ _ s s' h hi
     · exact growG_numeric hR s0 _ _ _ _ s s' h hi
 
-theorem growG_stAssoc (e : Elem) : Pres (G V s0) (stAssoc P e) := by
+theorem growG_stAssoc (e : Elem) : Pres (G V X s0) (stAssoc P e) := by
   intro s s' h hi
   unfold stAssoc at h
   split at h
   · exact growG_codeflag hR s0 _ _ s s' h hi
   · cases h; exact hi
 
-theorem growG_elementDescriptor (dd : DDesc) (e : Elem) : Pres (G V s0) (elementDescriptor P dd e) := by
+theorem growG_elementDescriptor (dd : DDesc) (e : Elem) : Pres (G V X s0) (elementDescriptor P dd e) := by
   intro s s' h hi
   rw [Bufr.C07.elementDescriptor_eq] at h
   cases h1 : stAssoc P e s with
@@ -139,10 +150,10 @@ theorem growG_elementDescriptor (dd : DDesc) (e : Elem) : Pres (G V s0) (element
       simp only [h2] at h
       exact growG_stValue hR s0 dd e s2 s' h (growG_stQa hR s0 e s1 s2 h2 (growG_stAssoc hR s0 e s s1 h1 hi))
 
-theorem growG_associatedField (id : Nat) : Pres (G V s0) (associatedField P id) :=
+theorem growG_associatedField (id : Nat) : Pres (G V X s0) (associatedField P id) :=
   fun s s' h hi => growG_codeflag hR s0 _ _ s s' h hi
 
-theorem growG_bitmappedDescriptor (op : Nat) : Pres (G V s0) (bitmappedDescriptor P op) := by
+theorem growG_bitmappedDescriptor (op : Nat) : Pres (G V X s0) (bitmappedDescriptor P op) := by
   intro s s' h hi
   cases hb : s.regs.bmIter with
   | none => simp [bitmappedDescriptor, nextBitmapped, hb, bind, Except.bind] at h
@@ -152,25 +163,25 @@ theorem growG_bitmappedDescriptor (op : Nat) : Pres (G V s0) (bitmappedDescripto
     | cons x rest =>
       obtain ⟨owner, be⟩ := x
       simp only [bitmappedDescriptor, nextBitmapped, hb, bind, Except.bind] at h
-      exact growG_elementDescriptor hR s0 _ _ _ _ h (hi.congr rfl (by rw [hR.addLink, hR.setRegs]) rfl)
+      exact growG_elementDescriptor hR s0 _ _ _ _ h (hi.congr rfl (by rw [hR.addLink, hR.setRegs]) rfl (fun x => hR.addLinkX _ _ (hR.setRegsX _ _ x)))
 
-theorem growG_bitmapDefinition (id : Nat) : Pres (G V s0) (bitmapDefinition P id) := by
+theorem growG_bitmapDefinition (id : Nat) : Pres (G V X s0) (bitmapDefinition P id) := by
   intro s s' h hi
   unfold bitmapDefinition at h
   cases hb : s.regs.bitmapDef with
   | na => simp only [hb] at h; cases h; exact hi
   | indicator =>
     simp only [hb] at h
-    split at h <;> (cases h; exact hi.congr rfl (hR.setRegs _ _) rfl)
+    split at h <;> (cases h; exact hi.congr rfl (hR.setRegs _ _) rfl (hR.setRegsX _ _))
   | waiting =>
     simp only [hb] at h
     split at h
-    · cases h; exact hi.congr rfl (hR.setRegs _ _) rfl
+    · cases h; exact hi.congr rfl (hR.setRegs _ _) rfl (hR.setRegsX _ _)
     · cases h; exact hi
   | counting =>
     simp only [hb] at h
     split at h
-    · cases h; exact hi.congr rfl (hR.setRegs _ _) rfl
+    · cases h; exact hi.congr rfl (hR.setRegs _ _) rfl (hR.setRegsX _ _)
     · simp only [bind, Except.bind, pure, Except.pure] at h
       cases hv : P.lastValues s.regs.n031031 s with
       | error err => simp [hv] at h
@@ -185,10 +196,10 @@ theorem growG_bitmapDefinition (id : Nat) : Pres (G V s0) (bitmapDefinition P id
           split at hbb
           · cases hbb
           · cases hbb
-            exact hi.congr rfl (by rw [hR.setRegs, hR.setRegs]) rfl
+            exact hi.congr rfl (by rw [hR.setRegs, hR.setRegs]) rfl (fun x => hR.setRegsX _ _ (hR.setRegsX _ _ x))
 
-theorem growG_operatorDescriptor (id : Nat) : Pres (G V s0) (operatorDescriptor P id) := by
-  show Pres (G V s0) (fun s => operatorDescriptor P id s)
+theorem growG_operatorDescriptor (id : Nat) : Pres (G V X s0) (operatorDescriptor P id) := by
+  show Pres (G V X s0) (fun s => operatorDescriptor P id s)
   simp only [operatorDescriptor]
   repeat' first
     | exact growG_setRegs hR s0 _
@@ -203,10 +214,10 @@ theorem growG_operatorDescriptor (id : Nat) : Pres (G V s0) (operatorDescriptor 
     split at h
     · cases h
     · next s2 hk =>
-      have i2 := growG_constant hR s0 _ _ _ s2 hk (hi.congr rfl (hR.setRegs _ _) rfl)
+      have i2 := growG_constant hR s0 _ _ _ s2 hk (hi.congr rfl (hR.setRegs _ _) rfl (hR.setRegsX _ _))
       injection h with h; subst h
       split
-      · exact i2.congr rfl (hR.setRegs _ _) rfl
+      · exact i2.congr rfl (hR.setRegs _ _) rfl (hR.setRegsX _ _)
       · exact i2
   · -- marker operators
     exact Pres.congr (fun s => Bufr.bind_eq_kl (fun s => if s.regs.assocStack ≠ [] then associatedField P id s else .ok s)
@@ -218,17 +229,17 @@ theorem growG_operatorDescriptor (id : Nat) : Pres (G V s0) (operatorDescriptor 
     | none => simp [hb] at h
     | some l =>
       simp only [hb] at h
-      exact growG_constant hR s0 _ _ _ s' h (hi.congr rfl (hR.setRegs _ _) rfl)
+      exact growG_constant hR s0 _ _ _ s' h (hi.congr rfl (hR.setRegs _ _) rfl (hR.setRegsX _ _))
 
-theorem growG_dnpStep : Pres (G V s0) (fun s => .ok (dnpStep s)) := by
+theorem growG_dnpStep : Pres (G V X s0) (fun s => .ok (dnpStep s)) := by
   intro s s' h hi
   cases h
   unfold dnpStep
   split
-  · exact hi.congr rfl (hR.setRegs _ _) rfl
+  · exact hi.congr rfl (hR.setRegs _ _) rfl (hR.setRegsX _ _)
   · exact hi
 
-theorem growG_walkRest (d : Desc) (hd : Pres (G V s0) (dispatch P d)) : Pres (G V s0) (walkRest P d) := by
+theorem growG_walkRest (d : Desc) (hd : Pres (G V X s0) (dispatch P d)) : Pres (G V X s0) (walkRest P d) := by
   intro s s' h hi
   unfold walkRest at h
   cases hsel : newRefSel d s with
@@ -238,7 +249,7 @@ theorem growG_walkRest (d : Desc) (hd : Pres (G V s0) (dispatch P d)) : Pres (G 
     · simp [hk] at h
     · simp only [hk, if_false] at h
       obtain ⟨a, v, b⟩ := hR.newRefval _ _ _ _ h
-      exact hi.push _ v a b (hR.newRefvalL _ _ _ _ h)
+      exact hi.push _ v a b (hR.newRefvalL _ _ _ _ h) (hR.newRefvalX _ _ _ _ h)
   | none =>
     simp only [hsel] at h
     by_cases hn : s.regs.nbitsSkipped = 0
@@ -252,9 +263,9 @@ theorem growG_walkRest (d : Desc) (hd : Pres (G V s0) (dispatch P d)) : Pres (G 
       | ok s1 =>
         simp only [hc] at h
         cases h
-        exact (growG_codeflag hR s0 _ _ s s1 hc hi).congr rfl (hR.setRegs _ _) rfl
+        exact (growG_codeflag hR s0 _ _ s s1 hc hi).congr rfl (hR.setRegs _ _) rfl (hR.setRegsX _ _)
 
-theorem growG_walk1_of (d : Desc) (hd : Pres (G V s0) (dispatch P d)) : Pres (G V s0) (walk1 P d) := by
+theorem growG_walk1_of (d : Desc) (hd : Pres (G V X s0) (dispatch P d)) : Pres (G V X s0) (walk1 P d) := by
   refine Pres.congr (fr_walk1_eq P d) ?_
   refine Pres.ite (c := fun s0 => skipTest d s0 = true) (growG_dnpStep hR s0) ?_
   exact Pres.congr (G := Bufr.kl (fun s => .ok (dnpStep s)) (walkRest P d)) (fun s => rfl)
@@ -263,15 +274,15 @@ theorem growG_walk1_of (d : Desc) (hd : Pres (G V s0) (dispatch P d)) : Pres (G 
 end steps
 
 mutual
-theorem growG_walkList {P : Prims} {V : St → List Val} (hR : Rec P V) (s0 : St) :
-    (t : List Desc) → Pres (G V s0) (walkList P t)
+theorem growG_walkList {P : Prims} {V : St → List Val} {X : St → Prop} (hR : Rec P V X) (s0 : St) :
+    (t : List Desc) → Pres (G V X s0) (walkList P t)
   | [] => Pres.congr (fun s => by rw [walkList]) Pres.id
   | d :: ds =>
     Pres.congr (G := Bufr.kl (walk1 P d) (walkList P ds)) (fun s => by rw [walkList]; rfl)
       (Pres.kl (growG_walk1_of hR s0 d (growG_dispatch hR s0 d)) (growG_walkList hR s0 ds))
 
-theorem growG_dispatch {P : Prims} {V : St → List Val} (hR : Rec P V) (s0 : St) :
-    (d : Desc) → Pres (G V s0) (dispatch P d)
+theorem growG_dispatch {P : Prims} {V : St → List Val} {X : St → Prop} (hR : Rec P V X) (s0 : St) :
+    (d : Desc) → Pres (G V X s0) (dispatch P d)
   | .elem e => growG_elementDescriptor hR s0 (.plain e) e
   | .fixedRep id ms => Pres.iterN (growG_walkList hR s0 ms) (yOf id)
   | .delayedRep _ f ms => by
@@ -290,16 +301,18 @@ theorem growG_dispatch {P : Prims} {V : St → List Val} (hR : Rec P V) (s0 : St
 end
 
 /-- a function that only appends items -/
-def Grows (V : St → List Val) (f : St → CM St) : Prop :=
-  ∀ s s', (V s).length = s.descs.length → f s = .ok s' → G V s s'
+def Grows (V : St → List Val) (X : St → Prop) (f : St → CM St) : Prop :=
+  ∀ s s', (V s).length = s.descs.length → f s = .ok s' → G V X s s'
 
-theorem Grows.of_pres {V : St → List Val} {f : St → CM St} (h : ∀ s0, Pres (G V s0) f) : Grows V f :=
-  fun s s' hl e => h s s s' e (G.refl V s hl)
+theorem Grows.of_pres {V : St → List Val} {X : St → Prop} {f : St → CM St} (h : ∀ s0, Pres (G V X s0) f) :
+    Grows V X f :=
+  fun s s' hl e => h s s s' e (G.refl V X s hl)
 
-theorem grows_walkList {P : Prims} {V : St → List Val} (hR : Rec P V) (t : List Desc) : Grows V (walkList P t) :=
+theorem grows_walkList {P : Prims} {V : St → List Val} {X : St → Prop} (hR : Rec P V X) (t : List Desc) : Grows V X (walkList P t) :=
   Grows.of_pres (fun s0 => growG_walkList hR s0 t)
 
-theorem grows_iterN {V : St → List Val} {f : St → CM St} (h : ∀ s0, Pres (G V s0) f) (n : Nat) : Grows V (iterN n f) :=
+theorem grows_iterN {V : St → List Val} {X : St → Prop} {f : St → CM St} (h : ∀ s0, Pres (G V X s0) f) (n : Nat) :
+    Grows V X (iterN n f) :=
   Grows.of_pres (fun s0 => Pres.iterN (h s0) n)
 
 end Bufr.C07
